@@ -6,3 +6,4 @@
 #include "cmd_sighash.inc"
 #include "cmd_listing.inc"
 #include "cmd_tf.inc"
+#include "cmd_dual.inc"
